@@ -194,7 +194,7 @@ func reproduced(v *Violation, ro *replayOutcome) bool {
 		return false
 	}
 	for _, f := range ro.Failed {
-		if f == v.ID {
+		if f == v.ID || strings.HasPrefix(f, v.ID+".") {
 			return true
 		}
 	}
